@@ -690,6 +690,67 @@ func detectAccelFromTransitions(selfID StateID, stride int, transitionFn func(in
 	return exitBytes
 }
 
+// detectSkippableExitBytes is the acceleration analysis the search loops use.
+// Unlike the exported DetectAccelerationFrom* helpers it only reports a state
+// as accelerable when skipping is sound (see the conditions below).
+func detectSkippableExitBytes(selfID StateID, stride int, transitionFn func(int) (StateID, bool), byteClasses *nfa.ByteClasses) []byte {
+	// Acceleration jumps over every byte that is not an exit byte, so it is only
+	// sound when each skipped byte really leaves the search where it is:
+	//   - every transition of the state must be known (an unknown one could exit),
+	//   - every non-exit class must loop back to the state itself; a transition to
+	//     the dead state is an EXIT (the scan has to stop there and report the
+	//     match found so far), never something to skip,
+	//   - the state must not be a match state: with 1-byte match delay a looping
+	//     match state moves the match end forward on every byte.
+	if selfID.IsMatchTag() {
+		return nil
+	}
+
+	var exitClasses []byte
+	for classIdx := 0; classIdx < stride; classIdx++ {
+		nextID, ok := transitionFn(classIdx)
+		if !ok {
+			return nil
+		}
+		if nextID == selfID {
+			continue
+		}
+		exitClasses = append(exitClasses, byte(classIdx))
+		if len(exitClasses) > 3 {
+			return nil
+		}
+	}
+
+	// Accelerable if we have 1-3 exit classes
+	if len(exitClasses) < 1 {
+		return nil
+	}
+
+	// memchr looks for individual bytes, so the exit classes together may hold
+	// at most 3 bytes (a class with several members cannot be represented by
+	// one of them).
+	// If no ByteClasses, class index == byte value (identity mapping)
+	if byteClasses == nil {
+		return exitClasses
+	}
+
+	exitBytes := make([]byte, 0, 3)
+	for b := 0; b < 256; b++ {
+		cls := byteClasses.Get(byte(b))
+		for _, classIdx := range exitClasses {
+			if cls == classIdx {
+				if len(exitBytes) == 3 {
+					return nil
+				}
+				exitBytes = append(exitBytes, byte(b))
+				break
+			}
+		}
+	}
+
+	return exitBytes
+}
+
 // DetectAcceleration analyzes a state by computing all byte transitions.
 //
 // WARNING: This is expensive! It computes move() for every byte value.
